@@ -16,6 +16,8 @@ CONSTANTS
   ArbAlpha = {48, 49, 50, 124, 58, 97, 61}
   ArbLen = 4
   Modes = {"tok", "arb"}
+  LongReps = {1100}
+  LongLens = {4301}
   W1 = 40
   W2 = 64
 INVARIANT Totality
